@@ -279,7 +279,7 @@ def run_shard(spec, ctx):
         # m may exceed n by one (ill-formed): the op then pulls m sigs, n keys
         allowed = rng.choice((0xff, 0x0f, 0x01, 0x00, rng.getrandbits(8)))
         fields = {f'sigfield{k}': bytes(rng.getrandbits(8) for _ in range(
-            rng.choice((0, 1, 8, 40)))) for k in range(1, 9)
+            rng.choice((0, 1, 8, 40)))) for k in rng.sample(range(1, 9), 8)
             if rng.random() < 0.7}
         sp = list(sp)
         rng.shuffle(sp)
@@ -303,7 +303,7 @@ def run_shard(spec, ctx):
               for _ in range(m)]
         allowed = rng.choice((0xff, 0xf0, 0x03, 0x00, rng.getrandbits(8)))
         fields = {f'sigfield{k}': bytes(rng.getrandbits(8) for _ in range(
-            rng.choice((0, 3, 32)))) for k in range(1, 9)
+            rng.choice((0, 3, 32)))) for k in rng.sample(range(1, 9), 8)
             if rng.random() < 0.6}
         plugin = rng.choice((None, 'step', 'meter', 'append'))
         keys, sigs = build_case(rng, n, sp, allowed,
